@@ -836,8 +836,10 @@ def cmp_c13(case, i, m):
     if i["profileName"] != m["profileName"]:
         return ("profileName", f"profileName {i['profileName']!r} instead of {m['profileName']!r}")
     rs = i.get("results") or []
-    if [r["focus"] for r in rs] != ["http://ex.org/n/1"]:
-        return ("list-values", f"list values {case['listvals']} were not matched verbatim: reported nodes {[r['focus'] for r in rs]} (expected only n/1)")
+    want_focus = ["http://ex.org/n/1", "http://ex.org/n/2"] if case.get("twin") else ["http://ex.org/n/1"]
+    if sorted(set(r["focus"] for r in rs)) != want_focus:
+        return ("list-values", f"list values {case['listvals']} were not matched verbatim: reported nodes {[r['focus'] for r in rs]} (expected {want_focus}" + (": n/2 holds `x` and `y`, which the twin constraint over [..., `x,y`] does not allow)" if case.get("twin") else ")"))
+    rs = [r for r in rs if r["focus"] == "http://ex.org/n/1"]
     if rs[0]["shape"] != m["shape"]:
         return ("shape", f"sourceShapeName {rs[0]['shape']!r} instead of {m['shape']!r}")
     if case.get("customMessage"):
